@@ -322,14 +322,14 @@ Cat3(x) ==      \* three operands: x, a second one, and a third of x's own struc
 WidthSeqs(k) == SeqsOf(WIDTHS, k)
 PadT(x) ==
     /\ "pad" \in OPS /\ x.k = "tt"
-    /\ \E k \in 1..Len(x.I) : \E w \in WidthSeqs(k), val \in {0, 3} :
+    /\ \E k \in 1..Len(x.I) : \E w \in WidthSeqs(k), val \in {0, 3, -2} :
         LET DX == Full(Mk(x)) IN
         /\ case' = [op |-> "pad", x |-> x, w |-> w, val |-> val]
         /\ res' = ValRes("tt", <<>>, DPadT(DX, w, <<val, 0>>).sh, DPadT(DX, w, <<val, 0>>), "must")
                   @@ [tol |-> IF val = 0 THEN "exact" ELSE "roundoff"]
 PadM(A) ==
     /\ "pad_m" \in OPS /\ A.k = "ttm"
-    /\ \E w \in WidthSeqs(Len(A.I)), val \in {0, 3} :
+    /\ \E w \in WidthSeqs(Len(A.I)), val \in {0, 3, -2} :
         LET d == Len(A.I)  D == DPadM(Full(Mk(A)), d, w, <<val, 0>>) IN
         /\ case' = [op |-> "pad_m", x |-> A, w |-> w, val |-> val]
         /\ res' = ValRes("ttm", SubSeq(D.sh, 1, d), SubSeq(D.sh, d + 1, 2*d), D, "must") @@ [tol |-> "exact"]
